@@ -504,3 +504,44 @@ impl Family for FClosureTwin {
         root
     }
 }
+
+
+/// Closure literals as the callee and as the arguments of one DynamicCall (an immediately invoked
+/// closure receiving closure literals): every literal keeps its own body.
+pub struct FClosureArgs;
+
+impl Family for FClosureArgs {
+    fn name(&self) -> &'static str {
+        "F-closure-args"
+    }
+    fn len(&self) -> u64 {
+        3 * 2 * 2
+    }
+    fn case(&self, idx: u64) -> Module {
+        let nargs = (idx % 3) as usize + 1;
+        let in_function = (idx / 3) % 2 == 1;
+        let nested = idx / 6 == 1;
+        // the callee calls each of its parameters and logs the results, then returns its own tag
+        let params: Vec<String> = (0..nargs).map(|j| format!("f{j}")).collect();
+        let mut callee_body: Vec<C> = vec![sv("x", add(rv("x"), int(1000)))];
+        for p in params.iter() {
+            callee_body.push(log2(p, dcall(rv(p), vec![])));
+        }
+        callee_body.push(C::Return(b(int(-1))));
+        let arg = |j: usize| -> C {
+            let tag = 10 * (j as i64 + 1);
+            if nested {
+                C::Closure(vec![], vec![sv("x", add(rv("x"), int(tag))), sv("inner", C::Closure(vec![], vec![C::Return(b(add(rv("x"), int(tag))))])), C::Return(b(dcall(rv("inner"), vec![])))])
+            } else {
+                C::Closure(vec![], vec![sv("x", add(rv("x"), int(tag))), C::Return(b(int(tag)))])
+            }
+        };
+        let the_call = dcall(C::Closure(params.clone(), callee_body), (0..nargs).map(arg).collect());
+        let site = vec![sv("x", int(1)), log2("callee", the_call), log2("x", rv("x"))];
+        if in_function {
+            module(vec![("main", func(&[], vec![sg("_sink", call("site", vec![int(5)]))])), ("site", func(&["q"], site))])
+        } else {
+            module(vec![("main", func(&[], site))])
+        }
+    }
+}
